@@ -188,3 +188,4 @@ def taproot_closure(ex, nin, explicit):
         claims[f"input_{i}_engine_checks_the_output_key_and_signature"] = sand(key_e == _G, sig_e == sig64)
     claims["engine_accepts_the_finalized_spend"] = ok_all
     return claims
+
